@@ -58,3 +58,9 @@ def run(REG, tier, seed, jobs):
     parts.append({'name': 'C19/bounded/version_compare-vs-order', 'function': 'version_compare', 'bound': f'{len(pairs)} pairs of version strings of <= 3 fragments over 1,2,10,a,b,.,- x 8 operator spellings x 2 spacings',
                   'evaluations': ev, 'distinct_nontrivial': nt, 'rule': 'non-trivial: the two versions are not equal in the order', 'exhaustive': tier != 'quick', 'failures': fails})
     return {'parts': parts}
+
+
+CHECKS = {
+    'C19/bounded/Version.__init__==spec_toks': (_tok_chunk, lambda c: c['s']),
+    'C19/bounded/version_compare-vs-order': (_cmp_chunk, lambda c: (c.get('vstr1', c.get('a')), (c.get('vstr2') or c.get('b')).lstrip('<>=! '))),
+}
